@@ -806,6 +806,141 @@ class Module:
         self.out.append("")
         self.funcs[f"{cls}.{name}" if cls else name] = FuncInfo(f"{self.ns}.{lean_name}", ["obj"] * len(params), "unit", True)
 
+    # -- T10: generator loops over time values of one family ------------------------------------------------------------
+    def translate_timestamp_generator(self, cls: str, name: str, lean_name: str, attr_types: dict[str, tuple[str, str]],
+                                      int_params: list[str]) -> None:
+        """T10: a generator method of the shape
+
+               <name> = <time expression>            (zero or more)
+               for i in range(<int parameter>):
+                   [if i != 0:]  <name> += <time expression> / <name> = <time expression>
+                   yield <name>  |  yield cast(T, <name>)
+
+        over time values of ONE family (datetime us / hightime ys / bintime ticks as integers).  Typed expressions: *abs* (an
+        instant), *rel* (a duration), *int*.  `abs + rel` and `rel + abs` are instants, range-checked by the family (`F.abs`: CPython,
+        hightime and bintime raise OverflowError outside their range); `int * rel`, `rel * int` are durations, range-checked
+        (`F.rel`); `rel + rel` likewise.  `attr_types` maps source expressions (`timing.start_time`) to (parameter, type).
+        Output: `Py.genRange` - the list of yielded values, or the first error."""
+        fn = self.find_func(cls, name)
+        body = [st for st in fn.body if not (isinstance(st, ast.Expr) and isinstance(st.value, ast.Constant))]
+
+        def fail(msg, node):
+            raise Untranslatable(f"{cls}.{name}: {msg}", node, self.path)
+        env: dict[str, str] = {p: "int" for p in int_params}
+        tmp = [0]
+
+        def expr(e, binds):
+            """-> (term, type); checked operations are appended to `binds` as (var, term)"""
+            key = ast.unparse(e)
+            if key in attr_types:
+                return attr_types[key]
+            if isinstance(e, ast.Name) and e.id in env:
+                return e.id, env[e.id]
+            if isinstance(e, ast.Constant) and isinstance(e.value, int) and not isinstance(e.value, bool):
+                return lit(e.value), "int"
+            if isinstance(e, ast.Call) and ast.unparse(e.func) == "cast" and len(e.args) == 2:
+                return expr(e.args[1], binds)
+            if isinstance(e, ast.BinOp) and isinstance(e.op, (ast.Add, ast.Mult)):
+                (a, ta), (b, tb) = expr(e.left, binds), expr(e.right, binds)
+                tmp[0] += 1
+                v = f"t_{tmp[0]}"
+                if isinstance(e.op, ast.Add) and {ta, tb} == {"abs", "rel"}:
+                    binds.append((v, f"(F.abs ({a} + {b}))")); return v, "abs"
+                if isinstance(e.op, ast.Add) and ta == tb == "rel":
+                    binds.append((v, f"(F.rel ({a} + {b}))")); return v, "rel"
+                if isinstance(e.op, ast.Mult) and {ta, tb} == {"int", "rel"}:
+                    binds.append((v, f"(F.rel ({a} * {b}))")); return v, "rel"
+                if ta == tb == "int":
+                    tmp[0] -= 1
+                    return f"({a} {'+' if isinstance(e.op, ast.Add) else '*'} {b})", "int"
+                fail(f"operator on ({ta}, {tb})", e)
+            fail(f"unsupported expression {key[:60]}", e)
+
+        def wrap(binds, inner):
+            out = inner
+            for v, t in reversed(binds):
+                out = f"Except.bind {t} (fun {v} =>\n{out})"
+            return out
+        # prefix assignments
+        pre: list[tuple[str, str]] = []
+        k = 0
+        while k < len(body) and isinstance(body[k], ast.Assign):
+            st = body[k]
+            if len(st.targets) != 1 or not isinstance(st.targets[0], ast.Name):
+                fail("assignment target", st)
+            b: list = []
+            term, ty = expr(st.value, b)
+            pre += b
+            pre.append((st.targets[0].id, f"(Except.ok {term} : Except PyErr Int)") if not b or b[-1][0] != term else None) if False else None
+            nm = st.targets[0].id
+            if b and b[-1][0] == term:
+                b2 = pre.pop()           # re-name the last bound value to the assigned name
+                pre.append((nm, b2[1]))
+            else:
+                pre.append((nm, f"(Except.ok {term})"))
+            env[nm] = ty
+            k += 1
+        pre = [x for x in pre if x is not None]
+        if k + 1 != len(body) or not isinstance(body[k], ast.For):
+            fail("expected assignments followed by exactly one `for` loop", fn)
+        loop = body[k]
+        it = loop.iter
+        if not (isinstance(loop.target, ast.Name) and isinstance(it, ast.Call) and ast.unparse(it.func) == "range" and len(it.args) == 1
+                and isinstance(it.args[0], ast.Name) and env.get(it.args[0].id) == "int") or loop.orelse:
+            fail("loop must be `for i in range(<int parameter>)`", loop)
+        ivar, nvar = loop.target.id, it.args[0].id
+        # loop-carried time variables: those assigned in the body
+        carried = []
+        for n_ in ast.walk(loop):
+            if isinstance(n_, (ast.Assign, ast.AugAssign)):
+                tg = n_.targets[0] if isinstance(n_, ast.Assign) else n_.target
+                if isinstance(tg, ast.Name) and tg.id in env and tg.id not in carried:
+                    carried.append(tg.id)
+        if len(carried) != 1:
+            fail(f"exactly one loop-carried variable expected, found {carried}", loop)
+        sv = carried[0]
+
+        def stmts(ss, yielded):
+            if not ss:
+                return f"Except.ok ({sv}, [{', '.join(yielded)}])"
+            st, rest = ss[0], ss[1:]
+            if isinstance(st, ast.Expr) and isinstance(st.value, ast.Yield) and st.value.value is not None:
+                b: list = []
+                term, ty = expr(st.value.value, b)
+                if ty != "abs":
+                    fail("yielded value must be an instant", st)
+                return wrap(b, stmts(rest, yielded + [term]))
+            if isinstance(st, (ast.Assign, ast.AugAssign)):
+                tg = st.targets[0] if isinstance(st, ast.Assign) else st.target
+                val = st.value if isinstance(st, ast.Assign) else ast.BinOp(left=ast.Name(id=tg.id, ctx=ast.Load()), op=st.op, right=st.value)
+                if not (isinstance(tg, ast.Name) and tg.id == sv):
+                    fail("assignment in the loop must be to the loop-carried variable", st)
+                b = []
+                term, ty = expr(val, b)
+                if ty != env[sv]:
+                    fail("loop-carried variable changes its type", st)
+                inner = stmts(rest, yielded)
+                if b and b[-1][0] == term:
+                    last = b.pop()
+                    return wrap(b, f"Except.bind {last[1]} (fun {sv} =>\n{inner})")
+                return wrap(b, f"let {sv} := {term}\n{inner}")
+            if isinstance(st, ast.If) and isinstance(st.test, ast.Compare) and len(st.test.ops) == 1 and isinstance(st.test.left, ast.Name) \
+                    and st.test.left.id == ivar and isinstance(st.test.comparators[0], ast.Constant) and isinstance(st.test.comparators[0].value, int) \
+                    and type(st.test.ops[0]) in (ast.NotEq, ast.Eq, ast.Gt, ast.Lt, ast.GtE, ast.LtE):
+                opn = {ast.NotEq: "≠", ast.Eq: "=", ast.Gt: ">", ast.Lt: "<", ast.GtE: "≥", ast.LtE: "≤"}[type(st.test.ops[0])]
+                a = stmts(list(st.body) + rest, yielded)
+                b_ = stmts(list(st.orelse) + rest, yielded)
+                return f"if {ivar} {opn} {st.test.comparators[0].value} then\n{indent(a, 1)}\nelse\n{indent(b_, 1)}"
+            fail(f"unsupported loop statement {ast.unparse(st)[:60]}", st)
+        loop_code = stmts(list(loop.body), [])
+        params = sorted({v[0] for v in attr_types.values()})
+        sig = " ".join(f"({p_} : Int)" for p_ in params + int_params)
+        code = wrap(pre, f"Py.genRange 0 (Int.toNat {nvar}) {sv} (fun ({ivar} : Nat) ({sv} : Int) =>\n{indent(loop_code, 1)})")
+        self.out.append(f"/-- generated from `{cls}.{name}` (generator loop over time values of one family `F`) -/")
+        self.out.append(f"@[pygen] def {lean_name} (F : Model.Timing.Fam) {sig} : Except PyErr (List Int) :=")
+        self.out.append(indent(code, 1))
+        self.out.append("")
+
     # -- T3: accumulator loops over a sequence of integers ---------------------------------------------------
     def translate_scan_function(self, name: str, lean_name: str, seq_param: str, enum_cls: str | None = None,
                                 helpers: dict[str, str] | None = None) -> None:
